@@ -1,0 +1,83 @@
+//! Verification-only synchronisation seam (compiled only with the `verif_hooks` feature).
+//!
+//! `Mutex` and `Once` have the surface of their `std::sync` namesakes that the
+//! lazily initialised registries use. With no backend installed they forward
+//! to `std::sync`. A verification harness may install a backend that is told
+//! about every acquire / release / once entry so that a model checker can
+//! schedule and observe them.
+use std::sync::{LockResult, OnceLock};
+use std::ops::{Deref, DerefMut};
+
+/// Callbacks a harness installs. `id` is the address of the seam object.
+pub struct Backend {
+    pub acquire: fn(id: usize, what: &'static str),
+    pub release: fn(id: usize),
+    /// Runs `init` if and only if this is the first call for `id` in the
+    /// backend's current epoch; blocks concurrent callers until it finished.
+    pub once: fn(id: usize, init: &mut dyn FnMut()),
+    /// Current epoch; a seam mutex whose contents were written in an older
+    /// epoch is put back to `T::default()` before it is handed out.
+    pub epoch: fn() -> usize,
+}
+
+static BACKEND: OnceLock<Backend> = OnceLock::new();
+
+pub fn install_backend(b: Backend) -> bool { BACKEND.set(b).is_ok() }
+fn backend() -> Option<&'static Backend> { BACKEND.get() }
+
+#[derive(Debug)]
+pub struct Mutex<T> { inner: std::sync::Mutex<T>, epoch: std::sync::atomic::AtomicUsize }
+
+pub struct MutexGuard<'a, T> { inner: Option<std::sync::MutexGuard<'a, T>>, id: usize, hooked: bool }
+
+impl<T: Default> Mutex<T> {
+    pub const fn new(t: T) -> Self { Self { inner: std::sync::Mutex::new(t), epoch: std::sync::atomic::AtomicUsize::new(0) } }
+    pub fn lock(&self) -> LockResult<MutexGuard<'_, T>> {
+        let id = self as *const _ as usize;
+        let hooked = if let Some(b) = backend() {
+            (b.acquire)(id, core::any::type_name::<T>());
+            let e = (b.epoch)();
+            if self.epoch.swap(e, std::sync::atomic::Ordering::SeqCst) != e {
+                *self.inner.lock().unwrap_or_else(|p| p.into_inner()) = T::default();
+            }
+            true
+        } else { false };
+        match self.inner.lock() {
+            Ok(g) => Ok(MutexGuard { inner: Some(g), id, hooked }),
+            Err(p) => Err(std::sync::PoisonError::new(MutexGuard { inner: Some(p.into_inner()), id, hooked })),
+        }
+    }
+}
+impl<T> Deref for MutexGuard<'_, T> { type Target = T; fn deref(&self) -> &T { self.inner.as_ref().unwrap() } }
+impl<T> DerefMut for MutexGuard<'_, T> { fn deref_mut(&mut self) -> &mut T { self.inner.as_mut().unwrap() } }
+impl<T> Drop for MutexGuard<'_, T> {
+    fn drop(&mut self) {
+        self.inner.take();
+        if self.hooked { if let Some(b) = backend() { (b.release)(self.id); } }
+    }
+}
+
+#[derive(Debug)]
+pub struct Once { inner: std::sync::Once }
+impl Once {
+    #[allow(clippy::new_without_default)]
+    pub const fn new() -> Self { Self { inner: std::sync::Once::new() } }
+    pub fn call_once<F: FnOnce()>(&self, f: F) {
+        if let Some(b) = backend() {
+            let mut f = Some(f);
+            (b.once)(self as *const _ as usize, &mut || { if let Some(f) = f.take() { f() } });
+        } else {
+            self.inner.call_once(f);
+        }
+    }
+}
+
+/// Stand-in for the `std` crate root inside the registry modules: identical to `std`
+/// except that `sync::{Mutex, MutexGuard, Once}` are the seam types above.
+pub mod shadow_std {
+    pub use ::std::*;
+    pub mod sync {
+        pub use ::std::sync::*;
+        pub use crate::verif_sync::{Mutex, MutexGuard, Once};
+    }
+}
